@@ -310,4 +310,16 @@ def firstBootB (d : Store) (m : List Bytes) (gs : List Group) (k : Nat) : Option
   | none, g0 :: _ => some (saveAllB gs { disk := d, count := 0, last := g0, mirror := m } k)
   | _, _ => none
 
+/-- `getFirstGroupBelowHeight(x)`: walk the iterator from `last`, return the first group whose
+    `CreateHeight ≤ x` (the fork switch picks the common ancestor with it). -/
+def firstBelowWalk (d : Store) (x : Nat) : Nat → Group → Option Group
+  | 0, _ => none
+  | fuel + 1, g =>
+    if g.create ≤ x then some g
+    else match getGroupById d g.pre with
+      | none => none
+      | some p => firstBelowWalk d x fuel p
+
+def firstBelow (c : Chain) (x : Nat) : Option Group := firstBelowWalk c.disk x (c.disk.length + 1) c.last
+
 end Rangers.Model.GroupChain
